@@ -21,7 +21,10 @@ from vp.core import Ctx, Fail, SubCheck, Tally, exc_klass, lib_raised, make_mach
 
 LEVEL = "exploration"
 RULE = (
-    "histories of datagrams from 3 peers (distinct IPs) to the P2P handler {registration, DMR start-up, RDAC start-up, ping, ack, "
+    "histories of datagrams from 8 sources (3 distinct hosts; pairs that share the host and differ in the port, share the port and differ in "
+    "the host, or differ only in the case / textual representation of the host; deterministic 'twin' scripts: one twin registers, every "
+    "request kind from the other) - every symbol also repeated 300 / 1000 times in every mode, random histories contain repeated blocks - "
+    "to the P2P handler {registration, DMR start-up, RDAC start-up, ping, ack, "
     "unknown command type, non-command garbage, short command, short ping, octet-4 = 255 boundary} and to the RDAC handler "
     "{the response expected for the peer's current model step, each response prefix FD/10/00/FA, other prefixes, one-byte "
     "datagrams 0x00 / other, garbage, short step-10 response, step-6 response with invalid UTF-16} plus storage configuration "
@@ -33,7 +36,8 @@ RULE = (
     "after the same peer's registration; RDAC - a peer reaches step >= 7, or a one-byte reset arrives at step >= 2."
 )
 ASSUMPTIONS = [
-    "peers have distinct IP addresses and one source port each (the RDAC handler keys its steps by IP, the storage by (IP, port))",
+    "a source is an (host string, port) pair compared as given; the RDAC handler keys its steps by the host string, so two sources on one host "
+    "share one identification run by design (the model does the same), while records, registration and the completion report are per source",
     "step 0 is 'not started': any datagram from an idle peer starts the identification (code: step0 ignores its data); a "
     "one-byte datagram restarts it at any step; at step 14 (completed) the code ignores it, which the model accepts as well "
     "(a restart there would begin a new run with its own completion report)",
@@ -50,7 +54,14 @@ ASSUMPTIONS = [
     "ever sent after completion",
 ]
 
-PEERS = [["10.0.0.1", 50000], ["10.0.0.2", 50000], ["10.0.0.3", 62000]]
+# peers 0..2: distinct hosts; 3: same host as 0, other port; 1: same port as 0, other host; 4/5: hosts that differ only in case;
+# 6: another textual representation of host 4; 7: another textual representation of host 0.  The handlers compare addresses as
+# given (strings), so all eight are different sources; the RDAC handler keys its steps by the host string, so 0 and 3 share a step.
+PEERS = [["10.0.0.1", 50000], ["10.0.0.2", 50000], ["10.0.0.3", 62000], ["10.0.0.1", 50001], ["fe80::1a", 50000], ["FE80::1A", 50000],
+         ["fe80:0:0:0:0:0:0:1a", 50000], ["010.000.000.001", 50000]]
+TWINS = [(0, 3), (3, 0), (0, 1), (4, 5), (5, 4), (4, 6), (0, 7), (7, 0)]  # (registers, never registers)
+REPEAT_COUNTS = [2, 3, 4, 5, 6, 7, 8, 9, 10, 11, 12, 16, 17, 31, 32, 33, 64, 100, 128, 255, 256, 257, 300]
+MARKER_FILLS = ["7e04", "7e0400fd", "fffe", "feff", "0300", "503250", "0a00000014", "0c00000014", "5a5a5a5a", "00", "4100"]
 OUTS = [["10.0.0.1", 50000], ["172.16.0.9", 40000], ["", 0]]
 P2P_PORT, RDAC_PORT = 50000, 50002
 PING_MARK = bytes([0x0A, 0x00, 0x00, 0x00, 0x14])
@@ -312,6 +323,12 @@ class Runner:
 
     def apply(self, op):
         k = op["k"]
+        if k == "repeat":  # the same op or short block of ops n times
+            self.flags["repeat_%s" % ("100_or_more" if op["n"] >= 100 else "10_to_99" if op["n"] >= 10 else "2_to_9")] += 1
+            for _ in range(op["n"]):
+                for o in op["ops"]:
+                    self.apply(o)
+            return
         if k == "rdac_run":  # a burst of expected responses (plain ops, applied one by one)
             for _ in range(op["count"]):
                 self.apply({"k": "rdac", "peer": op["peer"], "kind": "expected", "fill": op.get("fill")})
@@ -376,6 +393,8 @@ class Runner:
                     self.req_before_and_after.add(addr)
             else:
                 self.req_before.add(addr)
+                if any(v["registered"] and (k2[0] == addr[0] or k2[0].lower() == addr[0].lower()) for k2, v in self.recs.items() if k2 != addr):
+                    self.flags["request_from_unregistered_twin_of_registered_peer"] += 1
         if kind == "reg":
             if rec is None:
                 rec = self.recs[addr] = {"registered": False, "out": ("", 0)}
@@ -771,6 +790,9 @@ def drv_rdac(ctx: Ctx, sub: SubCheck):
     def single(si, t: Tally):  # every prefix probe as the only datagram after peer 0 was driven to each step (si = 0: fresh handler)
         _probe(ctx, sub, t, _rdac_prefix(si), _rdac_probes(full=True), f"from_step_{STEPS[si]}_single_")
         _probe(ctx, sub, t, _rdac_prefix(si), _rdac_cross_probes(), f"from_step_{STEPS[si]}_cross_")
+        # structured content: constant fills made of the marker / header / terminator octets of the enclosing layers (and BOMs in the texts)
+        fills = [{"k": "rdac", "peer": 0, "kind": kind, "fill": f, **extra} for f in MARKER_FILLS for kind, extra in (("expected", {}), ("pfx", {"x": 0x00}), ("pfx", {"x": 0x10}))]
+        _probe(ctx, sub, t, _rdac_prefix(si), fills, f"from_step_{STEPS[si]}_marker_fill_")
 
     ctx.shards(single, list(range(len(STEPS))))
     ctx.tally.exhaustive[sub.name] = True
@@ -784,14 +806,102 @@ def drv_rdac(ctx: Ctx, sub: SubCheck):
     )
 
 
+# ---- address pools with partial overlap ------------------------------------------------------------------------------------
+
+
+def _p2p_requests(peer):
+    return [{"k": "p2p", "peer": peer, "kind": "dmr", "n": 33, "fill": "b2"}, {"k": "p2p", "peer": peer, "kind": "rdac", "n": 34, "fill": "c3"},
+            {"k": "p2p", "peer": peer, "kind": "ping", "n": 20}, {"k": "p2p", "peer": peer, "kind": "short_ping", "n": 12},
+            {"k": "p2p", "peer": peer, "kind": "dmr", "tpl": 1}, {"k": "p2p", "peer": peer, "kind": "rdac", "tpl": 1}, {"k": "p2p", "peer": peer, "kind": "ping", "tpl": 1},
+            {"k": "p2p", "peer": peer, "kind": "ack", "n": 28}, {"k": "p2p", "peer": peer, "kind": "unknown", "t": 0x20, "n": 33}]
+
+
+def drv_twins(ctx: Ctx, sub: SubCheck):
+    """Pairs of sources that share the host and differ in the port, share the port and differ in the host, or differ only in the case /
+    textual representation of the host: after one of them registered (or was identified over RDAC), every request kind from the
+    other one, then from the first again; and all short sequences over the two twins' symbols."""
+    depth = ctx.pick(3, 4)
+
+    def scripted(pair, t: Tally):
+        a, b = pair
+        reg_a = {"k": "p2p", "peer": a, "kind": "reg", "n": 33, "fill": "a1"}
+        pres = {
+            "registered": [reg_a],
+            "registered_with_outbound_address": [{"k": "cfg", "peer": a, "out": 1}, reg_a],
+            "registered_twin_known_over_rdac": [reg_a, {"k": "rdac", "peer": b, "kind": "one", "v": 0}],
+            "registered_and_identified": [reg_a, {"k": "rdac_run", "peer": a, "count": 13}],
+            "registered_twice": [reg_a, reg_a],
+        }
+        for name, pre in pres.items():
+            for first in _p2p_requests(b):
+                for second in _p2p_requests(a)[:4] + [{"k": "p2p", "peer": b, "kind": "reg", "n": 33, "fill": "a1"}]:
+                    for third in _p2p_requests(b)[:3] + _p2p_requests(a)[:3]:
+                        ctx.run_case(sub.name, oracle_history, {"ops": pre + [first, second, third]}, t)
+                        t.case(sub.name, nontrivial=True, cls=f"scripted_{name}")
+        # RDAC: the twins interleave their identification (same host: one shared step by design; other host / spelling: separate)
+        for n_a in (0, 2, 6, 9, 13):
+            for n_b in (1, 3, 7, 13):
+                ops = ([{"k": "rdac_run", "peer": a, "count": n_a}] if n_a else []) + [{"k": "rdac_run", "peer": b, "count": n_b}, {"k": "rdac", "peer": a, "kind": "expected"},
+                       {"k": "rdac", "peer": b, "kind": "one", "v": 0}, {"k": "rdac_run", "peer": a, "count": 13}, {"k": "rdac_run", "peer": b, "count": 13}]
+                ctx.run_case(sub.name, oracle_history, {"ops": ops}, t)
+                t.case(sub.name, nontrivial=True, cls="scripted_rdac_interleaved")
+
+    ctx.shards(scripted, TWINS)
+
+    symbols = {}
+    for a, b in [(0, 3), (4, 5), (0, 7)]:
+        symbols[(a, b)] = [{"k": "p2p", "peer": p, "kind": kind, "n": n} for p in (a, b) for kind, n in (("reg", 33), ("dmr", 33), ("rdac", 34), ("ping", 20))] + [
+            {"k": "cfg", "peer": a, "out": 1}, {"k": "rdac", "peer": b, "kind": "one", "v": 0}]
+    items = [(pair, first) for pair in symbols for first in range(len(symbols[pair]))]
+
+    def enum(item, t: Tally):
+        pair, first = item
+        _enumerate(ctx, sub, t, [], symbols[pair], first, depth, f"twins_{pair[0]}_{pair[1]}_")
+
+    ctx.shards(enum, items)
+    ctx.tally.exhaustive[sub.name] = True
+    ctx.tally.notes.append(f"{sub.name}: {len(TWINS)} ordered twin pairs (same host / other port, same port / other host, case and representation variants of the host): "
+                           f"scripted histories (one twin registers, every request kind from the other, then mixed) and all sequences of length <= {depth} over 10 symbols of 3 pairs")
+
+
+def drv_runs(ctx: Ctx, sub: SubCheck):
+    """every symbol repeated 300 times in each reachable mode: P2P peer 0 unknown / known / registered (also while its twin is registered),
+    RDAC peer 0 at each of the 14 steps; plain and with garbage interleaved"""
+    n = ctx.pick(300, 1000)
+    reg0 = {"k": "p2p", "peer": 0, "kind": "reg", "n": 33, "fill": "a1"}
+    p2p_modes = {"unknown": [], "known_unregistered": [{"k": "cfg", "peer": 0, "out": 1}], "registered": [reg0],
+                 "unknown_while_twin_registered": [{"k": "p2p", "peer": 3, "kind": "reg", "n": 33, "fill": "a1"}]}
+    p2p_syms = [sym for sym in P2P_SYMBOLS if sym.get("peer") == 0] + [{"k": "p2p", "peer": 0, "kind": k, "tpl": 1} for k in ("reg", "dmr", "rdac", "ping")]
+    noise_p = {"k": "p2p", "peer": 0, "kind": "garbage", "hex": "0011223344"}
+    noise_r = {"k": "rdac", "peer": 0, "kind": "garbage", "hex": "7e0401fd00"}
+    rdac_syms = [sym for sym in RDAC_SYMBOLS if sym.get("peer") == 0] + [{"k": "rdac", "peer": 3, "kind": "expected"}, {"k": "rdac", "peer": 1, "kind": "expected"}]
+    items = [("p2p", m, i) for m in p2p_modes for i in range(len(p2p_syms))] + [("rdac", si, i) for si in range(len(STEPS)) for i in range(len(rdac_syms))]
+
+    def work(item, t: Tally):
+        which, mode, i = item
+        if which == "p2p":
+            pre, sym, noise, label = p2p_modes[mode], p2p_syms[i], noise_p, f"p2p_{mode}"
+            tail = [{"k": "p2p", "peer": 0, "kind": "dmr", "n": 33}, {"k": "p2p", "peer": 3, "kind": "ping", "n": 20}]
+        else:
+            pre, sym, noise, label = _rdac_prefix(mode), rdac_syms[i], noise_r, f"rdac_from_step_{STEPS[mode]}"
+            tail = [{"k": "rdac", "peer": 0, "kind": "expected"}, {"k": "rdac", "peer": 1, "kind": "expected"}]
+        for name, block in (("same_op", [sym]), ("with_garbage", [sym, noise])):
+            ctx.run_case(sub.name, oracle_history, {"ops": pre + [{"k": "repeat", "n": n, "ops": block}] + tail}, t)
+            t.case(sub.name, nontrivial=True, cls=f"{label}_{name}")
+
+    ctx.shards(work, items)
+    ctx.tally.exhaustive[sub.name] = True
+    ctx.tally.notes.append(f"{sub.name}: every peer-0 symbol repeated {n} times (plain and with garbage interleaved) in 4 P2P modes and from each of the 14 RDAC steps")
+
+
 # ---- random part -----------------------------------------------------------------------------------------------------
 
 
 def _strategies():
     from hypothesis import strategies as st
 
-    peer = st.integers(0, 2)
-    fill = st.one_of(st.just("00"), st.just("4100"), st.binary(min_size=1, max_size=8).map(bytes.hex))
+    peer = st.one_of(st.integers(0, 2), st.sampled_from([0, 3]), st.sampled_from([0, 3, 1]), st.sampled_from([4, 5, 6]), st.integers(0, len(PEERS) - 1))
+    fill = st.one_of(st.just("00"), st.just("4100"), st.binary(min_size=1, max_size=8).map(bytes.hex), st.sampled_from(MARKER_FILLS))
     b4 = st.one_of(st.integers(0, 254), st.integers(0, 254), st.integers(0, 254), st.just(255))
 
     def p2p(kind, **f):
@@ -824,6 +934,13 @@ def _strategies():
         "rdac_one": rdac("one", v=st.one_of(st.just(0), st.integers(0, 255))),
         "rdac_garbage": rdac("garbage", hex=st.binary(max_size=32).map(bytes.hex)),
     }
+    # long homogeneous runs: one op or a short block (op + garbage / two ops) repeated N times
+    single = st.one_of(*[v for k, v in rules.items() if k not in ("rdac_run", "cfg")])
+    noise = st.one_of(p2p("garbage", hex=st.binary(max_size=12).map(bytes.hex)), p2p("ack", n=n_cmd, fill=fill), rdac("garbage", hex=st.binary(min_size=2, max_size=8).map(bytes.hex)))
+    block = st.one_of(single.map(lambda o: [o]), single.map(lambda o: [o]), st.tuples(single, noise).map(list), st.tuples(single, single).map(list),
+                      st.tuples(single, noise, single).map(list))
+    small = st.sampled_from([2, 3, 4, 5, 6, 7, 8, 9, 10, 11, 12, 16, 17])
+    rules["repeat"] = st.fixed_dictionaries({"k": st.just("repeat"), "n": st.one_of(small, small, st.sampled_from(REPEAT_COUNTS)), "ops": block})
     return rules
 
 
@@ -831,7 +948,7 @@ def drv_random(ctx: Ctx, sub: SubCheck):
     M = make_machine("RepeaterHandshakeMachine", Runner, _strategies())
 
     def work(shard, t: Tally):
-        ctx.state_machine(sub.name, M, max_examples=ctx.pick(30, 200), step_count=ctx.pick(50, 150), tally=t, shard=shard)
+        ctx.state_machine(sub.name, M, max_examples=ctx.pick(25, 200), step_count=ctx.pick(40, 150), tally=t, shard=shard)
 
     ctx.shards(work, list(range(16)))
 
@@ -839,6 +956,8 @@ def drv_random(ctx: Ctx, sub: SubCheck):
 SUBCHECKS = [
     SubCheck("p2p_exhaustive", oracle_history, drv_p2p, "all sequences over 27 P2P symbols (3 peers) up to length 3 (quick) / 4 (thorough)"),
     SubCheck("rdac_exhaustive", oracle_history, drv_rdac, "all sequences over 26 RDAC symbols from a fresh handler and from each of the 14 reachable steps of peer 0"),
-    SubCheck("random_histories", oracle_history, drv_random, "Hypothesis RuleBasedStateMachine: both handlers on one storage, 3 peers, random filler / lengths / texts"),
+    SubCheck("twin_peers", oracle_history, drv_twins, "sources sharing host or port or differing only in the spelling of the host: one registers, every request kind from the other; short sequences"),
+    SubCheck("symbol_runs", oracle_history, drv_runs, "every peer-0 symbol repeated 300 / 1000 times in each P2P mode and from each RDAC step, plain and with garbage interleaved"),
+    SubCheck("random_histories", oracle_history, drv_random, "Hypothesis RuleBasedStateMachine: both handlers on one storage, 8 sources (partly overlapping addresses), random filler / lengths / texts, repeated blocks"),
 ]
 PREDICATES = {}
